@@ -13,6 +13,8 @@
      * ConstantPT (atom kind KConst), ArithmeticPT with a scalar operand (Ari), ArithmeticAtomicPT (AAt, an
        AMC of its two operands), TimeReversalPT (Rev, a transparent wrapper), per-channel dropping (`dr` = the set of
        channels mapped to None), to_single_waveform (transparent for parameters: nothing to model)
+     * the channel_mapping of a MappingPT (Ren inner r, user-level `Map (Ren inner r) m cs`): an inner channel is
+       dropped iff the outer channel it is renamed to is (get_updated_channel_mapping)  -> ren_drop
      * FunctionPT substitutes the supplied values *symbolically* (sympy): what is left of the expression is modelled
        as a polynomial normal form over the names without value                      -> peval, res_closed
    Voltages and waveform contents are not modelled. *)
@@ -242,7 +244,9 @@ Inductive pt :=
 | Seq (subs : list pt) (cs : list constr) (ms : list (expr * expr))
 | Rep (body : pt) (count : expr) (cs : list constr) (ms : list (expr * expr))
 | For (body : pt) (idx : ident) (start stop step : expr) (cs : list constr) (ms : list (expr * expr))
-| Map (inner : pt) (m : list (ident * expr)) (cs : list constr).
+| Map (inner : pt) (m : list (ident * expr)) (cs : list constr)
+| Ren (inner : pt) (r : list (ident * ident)).                                (* the channel_mapping of a MappingPT:
+                                                                                 inner channel -> outer channel *)
 
 (* ArithmeticAtomicPT(lhs, op, rhs, measurements): both operands are built, a waveform exists iff one of them has one;
    windows = own + lhs + rhs; no constraints.  TimeReversalPT delegates to the inner template. *)
@@ -253,6 +257,11 @@ Definition Rev (inner : pt) : pt := Par inner [].
 Definition adrop (chs dr : list ident) : bool := forallb (fun c => mem c dr) chs.
 Definition kept (dr : list ident) (l : list (ident * expr)) : list expr :=
   map snd (filter (fun ce => negb (mem (fst ce) dr)) l).
+
+(* MappingPT.get_updated_channel_mapping: an inner channel is mapped to None iff the outer channel it is renamed to
+   is (channels without entry keep their name) *)
+Definition ren_drop (r : list (ident * ident)) (dr : list ident) : list ident :=
+  filter (fun c => negb (is_some (assoc c r))) dr ++ map fst (filter (fun cr => mem (snd cr) dr) r).
 
 Definition remove_id (x : ident) (l : list ident) : list ident := filter (fun y => negb (N.eqb y x)) l.
 
@@ -268,6 +277,7 @@ Fixpoint pnames (p : pt) : list ident :=
   | For body i a b st cs ms =>
       remove_id i (pnames body) ++ (vars a ++ vars b ++ vars st) ++ cvars_l cs ++ mvars_l ms
   | Map inner m cs => vars_l (map snd m) ++ cvars_l cs
+  | Ren inner _ => pnames inner
   end.
 
 Fixpoint dedup (l : list ident) : list ident :=
@@ -299,6 +309,7 @@ Fixpoint construct (p : pt) : pt :=
   | Rep body count cs ms => Rep (construct body) count cs ms
   | For body i a b st cs ms => For (construct body) i a b st cs ms
   | Map inner m cs => mk_map (construct inner) m cs
+  | Ren inner r => Ren (construct inner) r
   end.
 
 (* ---------------------------------------------------------------- instantiation -------------------------------- *)
@@ -395,6 +406,7 @@ Fixpoint build (p : pt) (s : scope) (drop : list ident) {struct p} : result bool
       bind (build inner s drop) (fun w =>
         if w then bind (scalar s (sa ++ kept drop sc)) (fun _ => Ok true) else Ok false)
   | Map inner m cs => bind (eager s m cs) (fun s' => build inner s' drop)
+  | Ren inner r => build inner s (ren_drop r drop)
   | _ => Err Other
   end.
 
@@ -406,6 +418,7 @@ Fixpoint meas_at (p : pt) (s : scope) {struct p} : result unit :=
       bind (meas s ms) (fun _ => fold_unit (fun q => meas_at q s) subs)
   | Ari inner _ _ => meas_at inner s
   | Map inner m cs => bind (eager s m cs) (fun s' => meas_at inner s')
+  | Ren inner _ => meas_at inner s
   | _ => Err Other
   end.
 
@@ -429,6 +442,7 @@ Fixpoint run (p : pt) (s : scope) (drop : list ident) {struct p} : result bool :
       if st' =? 0 then Err Other else
       bind (meas s ms) (fun _ => fold_or (fun v => run body (SRange s i v) drop) (zrange a' b' st'))))))
   | Map inner m cs => bind (validate s cs) (fun _ => run inner (SMapped s m) drop)
+  | Ren inner r => run inner s (ren_drop r drop)
   end.
 
 (* PulseTemplate.create_program(parameters=values, channel_mapping=...) on the constructed template *)
